@@ -283,6 +283,21 @@ func init() {
 			for _, e := range entries { // sequential: the recording wrapper is process-global
 				judgeEntry(c, e)
 			}
+			// the same entries once more in a seeded shuffled order together with much longer keys, so that short keys
+			// follow long ones and vice versa on one goroutine (the pass above visits lengths in ascending order)
+			alt := append([]entryCase(nil), entries...)
+			for _, n := range []int{257, 300, 512, 1000, 4096} {
+				key := gen.SecretBytes(rng, n, 0)
+				alt = append(alt, entryCase{KeyHex: hexs(key), Texts: allSpellings(rng, key)[:4]})
+			}
+			for i := len(alt) - 1; i > 0; i-- {
+				j := rng.Intn(i + 1)
+				alt[i], alt[j] = alt[j], alt[i]
+			}
+			for _, e := range alt {
+				judgeEntry(c, e)
+				c.R.Count("entry_cases_in_shuffled_length_order", 1)
+			}
 		},
 		Replay: func(c *Ctx, kind string, raw json.RawMessage) error {
 			switch kind {
